@@ -455,9 +455,55 @@ func c14Families(p *chk.Prog, r *chk.Report) {
 	fam := definedBy(g, "ipfamily.ForAddress(A.Prefix.IP)")
 	is4 := g.GPat(true, "F == ipfamily.IPv4", chk.H("F", fam))
 	not4 := g.GPat(false, "F == ipfamily.IPv4", chk.H("F", fam))
+	// an insert through a local that stands for the set of the advertisement's family (`s := p.XV6; if family == IPv4 {
+	// s = p.XV4 }; s.Insert(v)`): under the assumption family == IPv4 only the V4 set can be the value at the insert, under
+	// its negation only the V6 set
+	cut4 := func(b *cfgBlock, k int) bool { return g.EdgeImplies(b, k, not4) } // the executions with family == IPv4
+	cut6 := func(b *cfgBlock, k int) bool { return g.EdgeImplies(b, k, is4) }
+	aliasSites := map[string][]chk.Site{}
+	for _, s := range g.FindPat("V.Insert(X)") {
+		id, isId := ast.Unparen(s.Node.(*ast.CallExpr).Fun.(*ast.SelectorExpr).X).(*ast.Ident)
+		if !isId {
+			continue
+		}
+		only := func(cut func(b *cfgBlock, k int) bool) string {
+			defs, entry := g.ReachingDefsUnder(id, s, cut)
+			name := ""
+			if entry || len(defs) == 0 {
+				return ""
+			}
+			for _, d := range defs {
+				as, isAs := d.(*ast.AssignStmt)
+				if !isAs || len(as.Lhs) != 1 || len(as.Rhs) != 1 {
+					return ""
+				}
+				se, isSel := ast.Unparen(as.Rhs[0]).(*ast.SelectorExpr)
+				if !isSel {
+					return ""
+				}
+				sel := se.Sel.Name
+				if name != "" && name != sel {
+					return ""
+				}
+				name = sel
+			}
+			return name
+		}
+		n4, n6 := only(cut4), only(cut6)
+		if strings.HasSuffix(n4, "V4") && n6 == strings.TrimSuffix(n4, "V4")+"V6" {
+			aliasSites[n4] = append(aliasSites[n4], s)
+			aliasSites[n6] = append(aliasSites[n6], s)
+		}
+	}
 	for _, set := range []string{"CommunitiesV4", "LargeCommunitiesV4", "LocalPrefsV4", "CommunitiesV6", "LargeCommunitiesV6", "LocalPrefsV6"} {
 		sites := g.FindPat("P." + set + ".Insert(V)")
-		x.Check(set+":insert-site", f.Pos(), len(sites) == 1, "", "expected one Insert into "+set)
+		x.Check(set+":insert-site", f.Pos(), len(sites)+len(aliasSites[set]) == 1, "", "expected one Insert into "+set)
+		for _, s := range aliasSites[set] {
+			x.OK(set+":by-prefix-family", s.Pos(), "through the local that holds the set of the advertisement's family")
+			if strings.HasPrefix(set, "LocalPrefs") {
+				x.Check(set+":non-zero", s.Pos(), g.Dominated(s, g.GPat(true, "A.LocalPref != 0")), "", "a zero local preference is recorded")
+			}
+		}
 		for _, s := range sites {
 			want := is4
 			if strings.HasSuffix(set, "V6") {
@@ -665,6 +711,35 @@ func c14Merge(p *chk.Prog, r *chk.Report) {
 			}
 			return true
 		})
+		if !(ok && okS) {
+			// the library form: i, found := slices.BinarySearchFunc(current, toAdd.Prefix, cmp) with cmp ordering an
+			// element's Prefix against the target; merged only when found
+			bs := "slices.BinarySearchFunc(C, T.Prefix, FN)"
+			idx2 := definedByIdx(g, af, bs, 0, chk.H("C", cur), chk.H("T", add))
+			found := definedByIdx(g, af, bs, 1, chk.H("C", cur), chk.H("T", add))
+			ok2 := false
+			for _, s := range g.FindPat("mergeAdvertisements(C[I], T)", chk.H("C", cur), chk.H("T", add), chk.H("I", idx2)) {
+				ok2 = g.Dominated(s, chk.GOr(chk.GBool(true, found), g.GPat(true, "C[I].Prefix == T.Prefix", chk.H("C", cur), chk.H("T", add), chk.H("I", idx2))))
+			}
+			okS2 := false
+			for _, c := range g.FindPat(bs, chk.H("C", cur), chk.H("T", add)) {
+				lit, isLit := ast.Unparen(c.Node.(*ast.CallExpr).Args[2]).(*ast.FuncLit)
+				if !isLit || len(lit.Body.List) != 1 {
+					continue
+				}
+				lf := af.LitFn(lit)
+				if rs, isRet := lit.Body.List[0].(*ast.ReturnStmt); isRet && len(rs.Results) == 1 {
+					for _, pat := range []string{"strings.Compare(A.Prefix, P)", "cmp.Compare(A.Prefix, P)"} {
+						if lf.MatchWith(pat, rs.Results[0], chk.H("A", isParamIdx(lf, 0)), chk.H("P", isParamIdx(lf, 1))) != nil {
+							okS2 = true
+						}
+					}
+				}
+			}
+			if ok2 && okS2 {
+				ok, okS = true, true
+			}
+		}
 		x.Check("addToAdvertisements:merge-only-equal-prefix", af.Pos(), ok && okS, "", "an advertisement can be merged into an entry for a different prefix, or the insert position is not the sorted one")
 	}
 }
